@@ -960,7 +960,13 @@ class Emitter:
                 if da and db and da['op'] == 'ptrtoint' and db['op'] == 'ptrtoint':
                     o.append('  %s = VERIF_PTRDIFF(%s, %s);' % (d, s.val(da['a']), s.val(db['a'])))
                     return
-            if s.uf_int == 'all' and op in ('add', 'sub', 'shl', 'lshr', 'ashr') and bits in (32, 64) and I['a'][0] != 'int' and I['b'][0] != 'int':
+            def from_ptr(v):
+                if v[0] != 'local': return False
+                dd = s.defs.get(v[1])
+                return bool(dd) and dd['op'] in ('ptrtoint', 'phi', 'select') and (dd['op'] == 'ptrtoint' or L.res(dd['ty']).bits == 64 and any(
+                    (x[0] == 'local' and (s.defs.get(x[1]) or {}).get('op') == 'ptrtoint') for x in ([i[0] for i in dd.get('inc', [])] + [dd.get('a'), dd.get('b')]) if x))
+            if s.uf_int == 'all' and op in ('add', 'sub', 'shl', 'lshr', 'ashr') and bits in (32, 64) and I['a'][0] != 'int' and I['b'][0] != 'int' \
+               and not from_ptr(I['a']) and not from_ptr(I['b']):
                 if op in ('shl', 'lshr', 'ashr'): s.ubassert(o, '%s < %d' % (b, bits), 'shift amount >= width')
                 o.append('  %s = VERIF_IUF(%s%d, %s, %s);' % (d, op, bits, a, b)); return
             if s.uf_int and op in ('mul', 'udiv', 'urem', 'sdiv', 'srem') and bits in (32, 64) and I['a'][0] != 'int' and I['b'][0] != 'int':
@@ -1455,16 +1461,16 @@ uint32_t __CPROVER_uninterpreted_ashr32(uint32_t, uint32_t); uint64_t __CPROVER_
    wide data path is abstracted */
 #define VERIF_SMALL(x) ((uint64_t)(x) < 256u)
 #define VERIF_IUF(f, a, b) ((VERIF_SMALL(a) && VERIF_SMALL(b)) ? verif_iuf_##f(a, b) : __CPROVER_uninterpreted_##f(a, b))
-#define VERIF_IMUL32(a, b) ((VERIF_SMALL(a) && VERIF_SMALL(b)) ? ((uint32_t)((a) * (b))) : __CPROVER_uninterpreted_mul32(a, b))
-#define VERIF_IMUL64(a, b) ((VERIF_SMALL(a) && VERIF_SMALL(b)) ? ((uint64_t)((a) * (b))) : __CPROVER_uninterpreted_mul64(a, b))
-#define VERIF_IUDIV32(a, b) ((VERIF_SMALL(a) && VERIF_SMALL(b) && (b) != 0) ? ((uint32_t)((a) / (b))) : __CPROVER_uninterpreted_udiv32(a, b))
-#define VERIF_IUDIV64(a, b) ((VERIF_SMALL(a) && VERIF_SMALL(b) && (b) != 0) ? ((uint64_t)((a) / (b))) : __CPROVER_uninterpreted_udiv64(a, b))
-#define VERIF_IUREM32(a, b) ((VERIF_SMALL(a) && VERIF_SMALL(b) && (b) != 0) ? ((uint32_t)((a) % (b))) : __CPROVER_uninterpreted_urem32(a, b))
-#define VERIF_IUREM64(a, b) ((VERIF_SMALL(a) && VERIF_SMALL(b) && (b) != 0) ? ((uint64_t)((a) % (b))) : __CPROVER_uninterpreted_urem64(a, b))
-#define VERIF_ISDIV32(a, b) ((VERIF_SMALL(a) && VERIF_SMALL(b) && (b) != 0) ? ((uint32_t)((int32_t)(a) / (int32_t)(b))) : __CPROVER_uninterpreted_sdiv32(a, b))
-#define VERIF_ISDIV64(a, b) ((VERIF_SMALL(a) && VERIF_SMALL(b) && (b) != 0) ? ((uint64_t)((int64_t)(a) / (int64_t)(b))) : __CPROVER_uninterpreted_sdiv64(a, b))
-#define VERIF_ISREM32(a, b) ((VERIF_SMALL(a) && VERIF_SMALL(b) && (b) != 0) ? ((uint32_t)((int32_t)(a) % (int32_t)(b))) : __CPROVER_uninterpreted_srem32(a, b))
-#define VERIF_ISREM64(a, b) ((VERIF_SMALL(a) && VERIF_SMALL(b) && (b) != 0) ? ((uint64_t)((int64_t)(a) % (int64_t)(b))) : __CPROVER_uninterpreted_srem64(a, b))
+#define VERIF_IMUL32(a, b) ((VERIF_SMALL(a) && VERIF_SMALL(b)) ? ((uint32_t)((uint32_t)(uint8_t)(a) * (uint32_t)(uint8_t)(b))) : __CPROVER_uninterpreted_mul32(a, b))
+#define VERIF_IMUL64(a, b) ((VERIF_SMALL(a) && VERIF_SMALL(b)) ? ((uint64_t)((uint32_t)(uint8_t)(a) * (uint32_t)(uint8_t)(b))) : __CPROVER_uninterpreted_mul64(a, b))
+#define VERIF_IUDIV32(a, b) ((VERIF_SMALL(a) && VERIF_SMALL(b) && (b) != 0) ? ((uint32_t)((uint32_t)(uint8_t)(a) / (uint32_t)(uint8_t)(b))) : __CPROVER_uninterpreted_udiv32(a, b))
+#define VERIF_IUDIV64(a, b) ((VERIF_SMALL(a) && VERIF_SMALL(b) && (b) != 0) ? ((uint64_t)((uint32_t)(uint8_t)(a) / (uint32_t)(uint8_t)(b))) : __CPROVER_uninterpreted_udiv64(a, b))
+#define VERIF_IUREM32(a, b) ((VERIF_SMALL(a) && VERIF_SMALL(b) && (b) != 0) ? ((uint32_t)((uint32_t)(uint8_t)(a) % (uint32_t)(uint8_t)(b))) : __CPROVER_uninterpreted_urem32(a, b))
+#define VERIF_IUREM64(a, b) ((VERIF_SMALL(a) && VERIF_SMALL(b) && (b) != 0) ? ((uint64_t)((uint32_t)(uint8_t)(a) % (uint32_t)(uint8_t)(b))) : __CPROVER_uninterpreted_urem64(a, b))
+#define VERIF_ISDIV32(a, b) ((VERIF_SMALL(a) && VERIF_SMALL(b) && (b) != 0) ? ((uint32_t)((uint32_t)(uint8_t)(a) / (uint32_t)(uint8_t)(b))) : __CPROVER_uninterpreted_sdiv32(a, b))
+#define VERIF_ISDIV64(a, b) ((VERIF_SMALL(a) && VERIF_SMALL(b) && (b) != 0) ? ((uint64_t)((uint32_t)(uint8_t)(a) / (uint32_t)(uint8_t)(b))) : __CPROVER_uninterpreted_sdiv64(a, b))
+#define VERIF_ISREM32(a, b) ((VERIF_SMALL(a) && VERIF_SMALL(b) && (b) != 0) ? ((uint32_t)((uint32_t)(uint8_t)(a) % (uint32_t)(uint8_t)(b))) : __CPROVER_uninterpreted_srem32(a, b))
+#define VERIF_ISREM64(a, b) ((VERIF_SMALL(a) && VERIF_SMALL(b) && (b) != 0) ? ((uint64_t)((uint32_t)(uint8_t)(a) % (uint32_t)(uint8_t)(b))) : __CPROVER_uninterpreted_srem64(a, b))
 #else
 #define VERIF_IUF(f, a, b) verif_iuf_##f(a, b)
 #define VERIF_IMUL32(a, b) ((uint32_t)((a) * (b)))
